@@ -85,6 +85,20 @@ CLAIMED["C17"] = (
     "not generated (their SDL needs the experimental parser flag).",
     "DESIGN.md 3/C17",
 )
+CLAIMED["C20"] = (
+    "differential against an independent type-system rule checker (R7) over generated schema models and "
+    "their single/double mutants from a 35-entry rule-violation catalogue; grammar-random SDL for the "
+    "never-raises half",
+    "For valid generated models and mutants (SDL with assume_valid_sdl, and programmatic) validate_schema "
+    "must return a list without raising, be empty exactly when the reference checker accepts the model, "
+    "report every planted rule violation that is still present, repeat identically on a second call, make "
+    "a request return data null with exactly those errors without running a resolver, and agree with "
+    "assert_valid_schema; grammar-random type-system documents that can be built must validate and serve "
+    "a request without raising.",
+    "R7 (vkit/ref/schema_rules.py) and R4 are my reading of the specification; schemas whose construction "
+    "raises are outside the quantifier and counted.",
+    "DESIGN.md 3/C20",
+)
 PENDING_REASON = (
     "check under construction in this session (DESIGN.md section 3 has its design); it is not claimed "
     "until it has run quietly on the unchanged tree at several seeds"
